@@ -180,11 +180,11 @@ def _cfg_text(name, **subst):
 
 def _sim(argsd):
     cases, r = tlc.emit_cases('ResourcePath', argsd['cfg'], deadlock=False, simulate=argsd['n'], depth=40,
-                              seed=argsd['seed'], timeout=1200)
+                              seed=argsd['seed'], timeout=1200, java_opts=['-Xmx1g'])
     return cases, r
 
 
-def submit_emission(ex, seed, quick):
+def submit_emission(ex, exsim, seed, quick):
     """start every case-emission run; returns handles for collect_emission."""
     names = ['small'] + ([] if quick else ['mid', 'wide'])
     nsim = 60 if quick else 1500
@@ -193,10 +193,10 @@ def submit_emission(ex, seed, quick):
         for pi, per in enumerate(['{"del", "app", "pre", "sub", "ins"}', '{}']):
             sims.append(dict(cfg=_cfg_text('ResourcePath.emit.sim.cfg', MinVars=m, Perturbs=per),
                              n=nsim if pi == 0 else nsim // 2, seed=seed * 100 + m * 2 + pi, m=m))
-    fx = [(n, ex.submit(tlc.emit_cases, 'ResourcePath', f'ResourcePath.emit.{n}.cfg', deadlock=False, timeout=2400))
-          for n in names]
-    fs = [ex.submit(_sim, s) for s in sims]
-    fv = ex.submit(tlc.emit_cases, 'ResourcePath', 'ResourcePath.emit.vis.cfg', deadlock=False, timeout=600)
+    fx = [(n, ex.submit(tlc.emit_cases, 'ResourcePath', f'ResourcePath.emit.{n}.cfg', deadlock=False, timeout=2400,
+                        java_opts=['-Xmx3g'])) for n in names]
+    fs = [exsim.submit(_sim, s) for s in sims]
+    fv = ex.submit(tlc.emit_cases, 'ResourcePath', 'ResourcePath.emit.vis.cfg', deadlock=False, timeout=600, java_opts=['-Xmx1g'])
     return fx, sims, fs, fv
 
 
@@ -307,7 +307,8 @@ def replay(chk, path):
     key, rep = body['key'], body['case']
     chk.rule = 'replay of one recorded input'
     if 'trace' in rep:
-        n, r = tlc.validate_traces('ResourcePathTrace', 'ResourcePathTrace.cfg', [dict(events=rep['trace']['events'])])
+        n, r = tlc.validate_traces('ResourcePathTrace', 'ResourcePathTrace.cfg', [dict(events=rep['trace']['events'])],
+                                   env={'JAVA_TOOL_OPTIONS': '-Xmx1g'})
         if n is None:
             raise core.MachineryError('trace validation machinery failure:\n' + r.out[-2000:])
         chk.states += r.distinct; chk.transitions += r.generated
@@ -360,14 +361,16 @@ def main(chk, args):
     mutants = ['segment_only', 'dot_any'] if quick else ['segment_only', 'unanchored', 'greedy', 'dot_any']
 
     def run_checks():
-        return [(label, tlc.run('ResourcePath', cfg, workers=8 if quick else 12, deadlock=False, timeout=3000))
-                for label, cfg in checks]
-    with ThreadPoolExecutor(32) as ex:
+        return [(label, tlc.run('ResourcePath', cfg, workers=8 if quick else 12, deadlock=False, timeout=3000,
+                                java_opts=['-Xmx6g'])) for label, cfg in checks]
+    # every JVM gets an explicit heap bound (the default is a quarter of the machine per process)
+    with ThreadPoolExecutor(16) as ex, ThreadPoolExecutor(12 if quick else 6) as exsim:
         fc = ex.submit(run_checks)
-        fvis = ex.submit(tlc.run, 'ResourcePath', 'ResourcePath.vis.cfg', workers=2, deadlock=False, timeout=600)
+        fvis = ex.submit(tlc.run, 'ResourcePath', 'ResourcePath.vis.cfg', workers=2, deadlock=False, timeout=600,
+                         java_opts=['-Xmx1g'])
         fm = {m: ex.submit(tlc.run, 'ResourcePath', _cfg_text('ResourcePath.small.cfg', Mutant=f'"{m}"', NaiveMax=0),
-                           workers=2, deadlock=False, timeout=900) for m in mutants}
-        handles = submit_emission(ex, chk.seed, quick)
+                           workers=2, deadlock=False, timeout=900, java_opts=['-Xmx1g']) for m in mutants}
+        handles = submit_emission(ex, exsim, chk.seed, quick)
         for label, r in fc.result():
             chk.add_tlc(r, f'ResourcePath model check ({label})')
         chk.add_tlc(fvis.result(), 'VisibleResources model check')
@@ -518,8 +521,9 @@ def main(chk, args):
         shards.append(cur)
 
     def _val(ix):
-        return tlc.validate_all('ResourcePathTrace', 'ResourcePathTrace.cfg', [traces[t] for t in ix], timeout=2400)
-    with ThreadPoolExecutor(8) as ex:
+        return tlc.validate_all('ResourcePathTrace', 'ResourcePathTrace.cfg', [traces[t] for t in ix], timeout=2400,
+                                env={'JAVA_TOOL_OPTIONS': '-Xmx3g'})
+    with ThreadPoolExecutor(6) as ex:
         vres = list(ex.map(_val, shards))
     acc_calls = 0
     nrej = 0
